@@ -285,6 +285,12 @@ func (f *Simple) makeDict() (*dict.TrueType, error) {
 
 	isSymbolic := f.isSymbolic()
 
+	// without a named encoding the reader has no glyph names to get text from
+	toUnicode := f.Simple.ToUnicode()
+	if isSymbolic {
+		toUnicode = f.Simple.ToUnicodeFull()
+	}
+
 	var dictEnc encoding.Simple
 	if isSymbolic {
 		// Use the built-in encoding, defined by a (1,0) "cmap" subtable which
@@ -392,7 +398,7 @@ func (f *Simple) makeDict() (*dict.TrueType, error) {
 		Descriptor:     fd,
 		Encoding:       dictEnc,
 		FontFile:       sfntglyphs.ToStream(subsetFont, glyphdata.TrueType),
-		ToUnicode:      f.Simple.ToUnicode(),
+		ToUnicode:      toUnicode,
 	}
 	for c, info := range f.Simple.MappedCodes() {
 		dict.Width[c] = info.Width
